@@ -140,6 +140,8 @@ class Machine:
         self._callee_cache = {}
         self._closure_index = None
         self._method_index = None
+        self.remap = {}              # struct name -> {declared index: canonical index} when the source declares fields in another order than the value model
+        self.canon = {}              # struct name -> canonical field order of the value model
         self.depth = 0
         self.max_depth = 400
         self.steps = 0
@@ -345,7 +347,14 @@ class Machine:
             raise Inconclusive('deref of non-reference %r in %s' % (inner, fr.fn.name))
         if k == 'field':
             r = self.place(fr, p[1])
-            return Ref(r.cell, r.path + (p[2],))
+            i = p[2]
+            if self.remap:
+                t = self.place_type(fr, p[1])
+                if t is not None:
+                    from .decls import _base
+                    mp = self.remap.get(_base(t))
+                    if mp is not None: i = mp.get(i, i)
+            return Ref(r.cell, r.path + (i,))
         if k == 'downcast':
             r = self.place(fr, p[1])
             e = self.load(r)
@@ -363,6 +372,36 @@ class Machine:
                 return Ref(r.cell, r.path + (('e', n - p[2]),))
             return Ref(r.cell, r.path + (('e', p[2]),))
         raise Inconclusive('place kind ' + k)
+
+    def place_type(self, fr, p):
+        """type string of a place when it can be read off the MIR text (locals are declared, field projections are annotated)"""
+        k = p[0]
+        if k == 'local': return fr.fn.locals.get(p[1])
+        if k == 'field': return p[3]
+        if k == 'deref':
+            t = self.place_type(fr, p[1])
+            if t is None: return None
+            t = t.strip()
+            m = re.match(r"^&\s*('\w+\s+)?(mut\s+)?(.*)$", t)
+            if m: return m.group(3)
+            m = re.match(r'^(?:std::boxed::)?Box<(.*)>$', t)
+            return m.group(1) if m else None
+        if k == 'downcast': return self.place_type(fr, p[1])
+        if k in ('index', 'constidx'):
+            t = self.place_type(fr, p[1])
+            if t is None: return None
+            m = re.match(r'^(?:std::vec::)?Vec<(.*)>$', t.strip()) or re.match(r'^\[(.*?)(; \d+)?\]$', t.strip())
+            return m.group(1) if m else None
+        return None
+
+    def install_layout(self, canon):
+        """canon: struct -> canonical field order used by the value model. The declared order is read from the sources; a different ORDER is
+        handled by remapping projections and aggregates, a different SET of fields makes the run inconclusive"""
+        for name, fields in canon.items():
+            decl = self.decls.structs.get(name)
+            if decl is None or sorted(decl) != sorted(fields): raise Inconclusive('declaration of %s changed: %s (value model expects the fields %s)' % (name, decl, fields))
+            self.canon[name] = list(fields)
+            if decl != list(fields): self.remap[name] = {i: fields.index(f) for i, f in enumerate(decl)}
 
     def variant_index(self, enum, variant):
         if enum is not None and enum in self.decls.enums:
@@ -467,7 +506,7 @@ class Machine:
             if en is not None:
                 order = self.decls.enums[en][vi][1] or []
                 return EnumV(en, vi, {vi: [vals[f] for f in order]})
-            order = self.decls.structs.get(name)
+            order = self.canon.get(name) or self.decls.structs.get(name)
             if order is None: raise Inconclusive('struct decl ' + name)
             if set(order) != set(vals): raise Inconclusive('struct fields mismatch for %s: %s vs %s' % (name, order, list(vals)))
             return [vals[f] for f in order]
@@ -477,6 +516,14 @@ class Machine:
             if en is not None: return EnumV(en, vi, {vi: vals})
             return vals
         if k == 'adt_unit':
+            last = rv[1][-1]
+            mf = re.fullmatch(r'__field(\d+)', last)
+            if mf: return EnumV('__Field', int(mf.group(1)), {int(mf.group(1)): []})
+            if last == '__ignore':
+                # serde's generated field identifier enum: __field0..__field{k-1}, __ignore (= k); k read off the generating function
+                ks = {int(x) for l in fr.fn.lines for x in re.findall(r'__field(\d+)', l)}
+                kk = max(ks) + 1 if ks else 0
+                return EnumV('__Field', kk, {kk: []})
             name, en, vi = self.adt_head(rv[1])
             if en is not None: return EnumV(en, vi, {vi: []})
             return []
@@ -781,6 +828,12 @@ class Machine:
             self_ty = segs[-2] if len(segs) >= 2 else None
         cands = self.method_index().get(meth, [])
         if not cands: return None
+        mh = re.search(r"<impl (?:[\w:]+::)?(\w+)(?:<.*?>)? for ([\w:]+)(?:<.*>)?>::\w+::(__\w+)", self_ty or '')
+        if mh:
+            # helper type generated inside a derive (serde's __Field / __Visitor of `impl Deserialize for Owner`)
+            owner, helper = mh.group(2).split('::')[-1], mh.group(3)
+            o = [f for f in cands if f.impl is not None and self.decls.impl_info(f.impl)['self_base'] == owner and helper in f.ret and f.name.count('<impl at') >= 2]
+            if len(o) == 1: return o[0]
         if self_ty is None:
             c = [f for f in cands if f.impl is None]
             return c[0] if len(c) == 1 else None
@@ -825,6 +878,17 @@ class Machine:
             if len(out) > 1:
                 o2 = [f for f in out if f.kind == 'fn' and len(f.args) == self.aux.get('_nargs_hint', len(f.args))]
                 if len(o2) == 1: out = o2
+        if len(out) > 1:
+            # nested helper impls of a derive (serde's __Field / __Visitor) share the span of the outer impl: tell them apart by the result type
+            inner = '__Field' in self_ty or '__Visitor' in self_ty
+            tag = '__Field' if '__Field' in self_ty else '__Visitor'
+            o2 = [f for f in out if (tag in f.ret) == inner] if inner else [f for f in out if '__Field' not in f.ret and '__Visitor' not in f.ret]
+            if inner and len(o2) > 1:
+                owner = re.search(r'for ([\w:]+)', self_ty)
+                if owner: o2 = [f for f in o2 if owner.group(1).split('::')[-1] in f.ret] or o2
+            if len(o2) > 1:
+                k = min(f.name.count('<impl at') for f in o2); o2 = [f for f in o2 if f.name.count('<impl at') == k]
+            if len(o2) == 1: out = o2
         if len(out) == 1: return out[0]
         if len(out) > 1: raise Inconclusive('ambiguous callee %s: %s' % (callee, [f.name for f in out][:4]))
         return None
